@@ -358,6 +358,33 @@ def toGraph (l : Loaded) (size : Nat) : Graph :=
       | some o => o.node
       | none => { typeId := [], args := [] }) }
 
+/-! ### vocabulary of the theorems -/
+
+mutual
+/-- no dictionary inside the value has a key `"type"` (finding F9: such a dictionary is read back as
+    a typed object). -/
+def noTypeKey : Val → Bool
+  | .list l => noTypeKeyL l
+  | .dict ks vs => !ks.contains kType && noTypeKeyL vs
+  | _ => true
+def noTypeKeyL : List Val → Bool
+  | [] => true
+  | v :: vs => noTypeKey v && noTypeKeyL vs
+end
+
+/-- state of an argument right after the parameter-less `__init__`: clone of the default, else `None`. -/
+def initVal (a : Arg) : Val :=
+  match a.default with
+  | some d => d
+  | none => .none
+
+def reset (a : Arg) : Arg := { a with value := initVal a }
+
+/-- what the current source makes of a node when it is written and read back as a configuration. -/
+def reloadNode (fl : Flags) (nd : Node) : Node :=
+  { nd with sealed := true, mflag := readMeta fl (writeMeta fl nd.mflag),
+            initTasks := if fl.initRestored then nd.initTasks else [] }
+
 /-! ### runtime objects: events observed by the task code -/
 
 inductive Ev where
